@@ -17,7 +17,7 @@ enum COp {
     Push(u64), PushS(Vec<u64>), PushZeroCopy(Vec<u64>),
     Pop, CopyS(usize), PeekAdv(usize), PeekOneAdv,
     Work(usize), WorkAvail, WorkOne,
-    Reset, Avail, DropIt,
+    Reset, Avail, DropIt, CopyUntil(usize), PushUntil(Vec<u64>),
     DetWork { adv: usize, back: usize },
 }
 
@@ -28,6 +28,7 @@ impl COp {
             COp::PushZeroCopy(v) => format!("pushz {}", v.iter().map(|x| x.to_string()).collect::<Vec<_>>().join(" ")),
             COp::Pop => "pop".into(), COp::CopyS(n) => format!("copys {n}"), COp::PeekAdv(n) => format!("peekadv {n}"), COp::PeekOneAdv => "peek1adv".into(),
             COp::Work(n) => format!("work {n}"), COp::WorkAvail => "workavail".into(), COp::WorkOne => "workone".into(),
+            COp::CopyUntil(n) => format!("copyuntil {n}"), COp::PushUntil(v) => format!("pushuntil {}", v.iter().map(|x| x.to_string()).collect::<Vec<_>>().join(" ")),
             COp::Reset => "reset".into(), COp::Avail => "avail".into(), COp::DropIt => "drop".into(), COp::DetWork { adv, back } => format!("detwork {adv} {back}"),
         }
     }
@@ -39,6 +40,7 @@ impl COp {
             ["push", v] => COp::Push(v.parse().ok()?), ["pushs", r @ ..] => COp::PushS(list(r)?), ["pushz", r @ ..] => COp::PushZeroCopy(list(r)?),
             ["pop"] => COp::Pop, ["copys", k] => COp::CopyS(n(k)?), ["peekadv", k] => COp::PeekAdv(n(k)?), ["peek1adv"] => COp::PeekOneAdv,
             ["work", k] => COp::Work(n(k)?), ["workavail"] => COp::WorkAvail, ["workone"] => COp::WorkOne,
+            ["copyuntil", k] => COp::CopyUntil(n(k)?), ["pushuntil", r @ ..] => COp::PushUntil(list(r)?),
             ["reset"] => COp::Reset, ["avail"] => COp::Avail, ["drop"] => COp::DropIt, ["detwork", a, b] => COp::DetWork { adv: n(a)?, back: n(b)? },
             _ => return None,
         })
@@ -73,7 +75,7 @@ impl Program {
 }
 
 #[derive(Default, Debug, Clone)]
-struct Logs { accepted: Vec<u64>, consumed: Vec<u64>, resets: usize, calls: Vec<(usize, String, usize, Vec<String>)>, complaints: Vec<(String, String)>, open: [Option<(usize, usize)>; NT], worked: usize }
+struct Logs { accepted: Vec<u64>, consumed: Vec<u64>, resets: usize, skipped: usize, calls: Vec<(usize, String, usize, Vec<String>)>, complaints: Vec<(String, String)>, open: [Option<(usize, usize)>; NT], worked: usize }
 
 type Buf = ConcurrentHeapRB<u64>;
 
@@ -99,7 +101,7 @@ fn close_window(logs: &Arc<Mutex<Logs>>, t: usize) { logs.lock().unwrap().open[t
 fn begin_call(t: usize) { let mut g = S.lock().unwrap(); if let Some(s) = g.as_mut() { s.call_events[t].clear(); } }
 fn end_call(logs: &Arc<Mutex<Logs>>, t: usize, op: &COp) {
     let evs: Vec<String> = { let g = S.lock().unwrap(); let s = g.as_ref().unwrap(); s.call_events[t].iter().map(|i| { let e = &s.events[*i]; format!("{} {} {}", ["load", "store", "rmw"][e.kind as usize], e.loc, e.ord) }).collect() };
-    let bound = match op { COp::DropIt => 3, COp::DetWork { .. } => 4, _ => 2 };
+    let bound = match op { COp::DropIt => 3, COp::DetWork { .. } => 4, COp::CopyUntil(_) | COp::PushUntil(_) => 12, _ => 2 };
     let mut l = logs.lock().unwrap();
     if evs.len() > bound { l.complaints.push(("C10".into(), format!("`{}` of T{t} performed {} atomic operations (bound {bound}): {:?}", op.text(), evs.len(), evs))); }
     l.calls.push((t, op.text(), evs.len(), evs));
@@ -125,16 +127,35 @@ fn run_prod(p: ProdIter<'static, Buf>, ops: Vec<COp>, logs: Arc<Mutex<Logs>>, le
                     logs.lock().unwrap().accepted.extend(vs.iter().copied());
                 }
             }
+            COp::PushUntil(vs) => {
+                // a stage that keeps retrying: in a sequentially consistent run an attempt made when there is room must get through
+                for _ in 0..6 {
+                    let (sc, room, nores) = { let l = logs.lock().unwrap(); let g = S.lock().unwrap(); (g.as_ref().unwrap().stale_pct == 0, (len - 1).saturating_sub(l.accepted.len().saturating_sub(l.consumed.len() + l.skipped)), l.resets == 0) };
+                    pend(t, p.index(), vs.len(), len, true, "push_slice");
+                    let ok = p.push_slice(vs).is_some();
+                    clear_pend(t);
+                    if ok { logs.lock().unwrap().accepted.extend(vs.iter().copied()); break; }
+                    if sc && nores && room >= vs.len() { logs.lock().unwrap().complaints.push(("C10".into(), format!("T0's push_slice of {} items was refused although {} slots had been released and every load returns the newest value: a publication is not found", vs.len(), room))); break; }
+                    sched::park();
+                }
+            }
             COp::Avail => { let _ = p.available(); }
             COp::DropIt => { it = None; }
             _ => {}
         }
+        if let Some(p) = it.as_ref() { check_published(&logs, t, p.index(), "prodIdx"); }
         end_call(&logs, t, &op);
     }
     sched::park();
     begin_call(t);
     drop(it);
     sched::finish();
+}
+
+/// An attached iterator that stored its index during the call must have stored its own (final) index.
+fn check_published(logs: &Arc<Mutex<Logs>>, t: usize, idx: usize, loc: &str) {
+    let stored: Option<usize> = { let g = S.lock().unwrap(); let s = g.as_ref().unwrap(); s.call_events[t].iter().rev().map(|i| &s.events[*i]).find(|e| e.kind == 1 && e.loc == loc).map(|e| e.val) };
+    if let Some(v) = stored { if v != idx { logs.lock().unwrap().complaints.push(("C04".into(), format!("T{t} published index {v} but its own index is {idx} after the operation (an attached iterator must publish its own position)"))); } }
 }
 
 fn run_work(w: WorkIter<'static, Buf>, ops: Vec<COp>, logs: Arc<Mutex<Logs>>, len: usize) {
@@ -181,13 +202,14 @@ fn run_work(w: WorkIter<'static, Buf>, ops: Vec<COp>, logs: Arc<Mutex<Logs>>, le
                     let b = (*back).min(a);
                     unsafe { d.go_back(b) };
                     unsafe { d.advance(b) };
-                    logs.lock().unwrap().worked += a;
                 }
                 it = Some(d.attach());
+                logs.lock().unwrap().worked += a; // processed items count as released only once attach has published them
             }
             COp::DropIt => { it = None; }
             _ => {}
         }
+        if let Some(w) = it.as_ref() { check_published(&logs, t, w.index(), "workIdx"); }
         end_call(&logs, t, &op);
     }
     sched::park();
@@ -222,10 +244,23 @@ fn run_cons<const W: bool>(c: ConsIter<'static, Buf, W>, ops: Vec<COp>, logs: Ar
                 if let Some(x) = c.peek_ref() { open_window(&logs, t, idx, 1, len); sched::note_access(idx % len, false, "peek read"); let v = *x; close_window(&logs, t); unsafe { c.advance(1) }; logs.lock().unwrap().consumed.push(v); }
             }
             COp::Reset => { c.reset_index(); logs.lock().unwrap().resets += 1; }
+            COp::CopyUntil(n) => {
+                for _ in 0..6 {
+                    let (sc, avail, nores) = { let l = logs.lock().unwrap(); let g = S.lock().unwrap(); (g.as_ref().unwrap().stale_pct == 0, if W { l.worked.saturating_sub(l.consumed.len() + l.skipped) } else { l.accepted.len().saturating_sub(l.consumed.len() + l.skipped) }, l.resets == 0) };
+                    let mut d = vec![0u64; *n];
+                    pend(t, c.index(), *n, len, false, "copy_slice");
+                    let ok = c.copy_slice(&mut d).is_some();
+                    clear_pend(t);
+                    if ok { logs.lock().unwrap().consumed.extend(d); break; }
+                    if sc && nores && avail >= *n { logs.lock().unwrap().complaints.push(("C10".into(), format!("T2's copy_slice({n}) was refused although {avail} items had been published to it and every load returns the newest value: a publication is not found"))); break; }
+                    sched::park();
+                }
+            }
             COp::Avail => { let _ = c.available(); }
             COp::DropIt => { it = None; }
             _ => {}
         }
+        if let Some(c) = it.as_ref() { check_published(&logs, t, c.index(), "consIdx"); }
         end_call(&logs, t, &op);
     }
     sched::park();
@@ -319,9 +354,9 @@ fn gen_program(rng: &mut Rng, seed: u64) -> Program {
     let mut vals = |n: usize| -> Vec<u64> { (0..n).map(|_| { next += 1; next }).collect() };
     let np = rng.range(2, 6); let nc = rng.range(2, 6); let nw = rng.range(2, 5);
     let mut p = vec![]; let mut w = vec![]; let mut c = vec![];
-    for _ in 0..np { p.push(match rng.below(10) { 0..=3 => COp::Push(vals(1)[0]), 4..=6 => COp::PushS(vals(rng.range(1, len - 1).max(1))), 7 | 8 => COp::PushZeroCopy(vals(rng.range(1, len - 1).max(1))), _ => COp::Avail }); }
+    for _ in 0..np { p.push(match rng.below(10) { 0..=3 => COp::Push(vals(1)[0]), 4..=6 => COp::PushS(vals(rng.range(1, len - 1).max(1))), 7 => COp::PushZeroCopy(vals(rng.range(1, len - 1).max(1))), 8 => COp::PushUntil(vals(rng.range(1, len - 1).max(1))), _ => COp::Avail }); }
     for _ in 0..nw { w.push(match rng.below(10) { 0..=2 => COp::WorkOne, 3..=5 => COp::Work(rng.range(1, len - 1).max(1)), 6 | 7 => COp::WorkAvail, 8 => COp::DetWork { adv: rng.range(1, len - 1).max(1), back: rng.range(0, 2) }, _ => COp::Avail }); }
-    for _ in 0..nc { c.push(match rng.below(12) { 0..=3 => COp::Pop, 4..=6 => COp::CopyS(rng.range(1, len - 1).max(1)), 7 | 8 => COp::PeekAdv(rng.range(1, len - 1).max(1)), 9 => COp::PeekOneAdv, 10 => COp::Avail, _ => if rng.chance(1, 3) { COp::Reset } else { COp::Pop } }); }
+    for _ in 0..nc { c.push(match rng.below(12) { 0..=3 => COp::Pop, 4..=6 => COp::CopyS(rng.range(1, len - 1).max(1)), 7 | 8 => COp::PeekAdv(rng.range(1, len - 1).max(1)), 9 => COp::PeekOneAdv, 10 => if rng.chance(1, 2) { COp::Avail } else { COp::CopyUntil(rng.range(1, len - 1).max(1)) }, _ => if rng.chance(2, 3) { COp::Reset } else { COp::Pop } }); }
     // sometimes drop early (survivors keep operating)
     if rng.chance(1, 4) { let k = rng.below(p.len() + 1); p.insert(k, COp::DropIt); p.truncate(k + 1); }
     if rng.chance(1, 5) { let k = rng.below(c.len() + 1); c.insert(k, COp::DropIt); c.truncate(k + 1); }
@@ -359,6 +394,7 @@ fn main() {
         if !v.violations.is_empty() { nfail = 1; report(&pr, &v, &mut fj, &rp); }
     } else {
         let mut rng = Rng::new(seed);
+        let mut tag_counts: BTreeMap<String, usize> = BTreeMap::new();
         for k in 0..cases {
             let pr = gen_program(&mut rng, seed.wrapping_mul(1000003).wrapping_add(k as u64));
             let v = execute(&pr);
@@ -366,7 +402,14 @@ fn main() {
             for o in &v.orderings { *ords.entry(o.clone()).or_insert(0) += 1; }
             if v.events >= 4 { distinct.insert(format!("{:?}{:?}", pr.ops, v.decisions)); }
             if samples.len() < 2 && v.stale_reads > 0 { let mut rp = pr.clone(); rp.script = v.decisions.clone(); samples.push(rp.text()); }
-            if !v.violations.is_empty() { nfail += 1; if fj.len() < 6 { report(&pr, &v, &mut fj, &format!("seed {seed}")); } }
+            if !v.violations.is_empty() {
+                nfail += 1;
+                // keep failures of every property that shows up: at most two reports per set of tags
+                let mut tags: Vec<String> = vec![]; for (t, _) in &v.violations { if !tags.contains(t) { tags.push(t.clone()); } }
+                let key = tags.join(",");
+                let c = tag_counts.entry(key).or_insert(0usize);
+                if *c < 2 && fj.len() < 12 { *c += 1; report(&pr, &v, &mut fj, &format!("seed {seed}")); }
+            }
         }
     }
     let oh: Vec<(String, String)> = ords.iter().map(|(k, v)| (k.clone(), v.to_string())).collect();
